@@ -182,7 +182,9 @@ def scanAr (msg : Bytes) (serverSize : Nat) : Nat → Nat → Nat → Bool → N
             else (.tsig, edns, lim)
       else scanAr msg serverSize n total d.next edns lim
 
-def specScan (cat : List ZoneCfg) (serverSize : Nat) (msg : Bytes) : Scan :=
+/-- the scan, parametric in the catalog lookup (`lookup qname qclass` = the kind of the catalog
+    entry of that class whose name is the longest suffix of `qname`, if any) -/
+def specScanWith (lookup : List UInt8 → Nat → Option ZoneKind) (serverSize : Nat) (msg : Bytes) : Scan :=
   if msg.size < 12 then { respond := false }
   else if (msg.getD 2 0).toNat ≥ 128 then { respond := false }       -- QR set: a response
   else
@@ -215,11 +217,41 @@ def specScan (cat : List ZoneCfg) (serverSize : Nat) (msg : Bytes) : Scan :=
               | some qq =>
                 if 251 ≤ qq.qtype ∧ qq.qtype ≤ 254 then { base with verdict := .notImp }
                 else if qq.qclass = 255 then { base with verdict := .notImp }
-                else match specCatalogLookup cat qq.qname qq.qclass with
+                else match lookup qq.qname qq.qclass with
                   | none => { base with verdict := .refused }
-                  | some z => match z.kind with
-                    | .loaded => { base with verdict := .answer }
-                    | _ => { base with verdict := .servFailZone }
+                  | some .loaded => { base with verdict := .answer }
+                  | some _ => { base with verdict := .servFailZone }
+
+def specScan (cat : List ZoneCfg) (serverSize : Nat) (msg : Bytes) : Scan :=
+  specScanWith (fun qn qc => (specCatalogLookup cat qn qc).map (·.kind)) serverSize msg
+
+/-! ### the response for the verdicts the scan decides alone -/
+
+/-- RCODE (the four header bits) and the upper eight bits of the extended RCODE (OPT TTL) -/
+def verdictRcode : Verdict → Nat × Nat
+  | .formErr => (1, 0)
+  | .badVers => (0, 1)        -- BADVERS = 16
+  | .notImp => (4, 0)
+  | .refused => (5, 0)
+  | .servFailZone => (2, 0)
+  | _ => (0, 0)
+
+/-- The complete response for FORMERR / BADVERS / NOTIMP / REFUSED / SERVFAIL-for-a-zone-not-loaded:
+    request ID and opcode echoed, QR set, RD copied for QUERY only, every other flag bit clear, the
+    RCODE, the question as decoded (uncompressed encoding), and no record except — iff the scan
+    reached an OPT — one OPT: owner root, CLASS = the server's payload size, version 0, the upper
+    extended-RCODE bits, no flags, no options (RFC 1035 §4.1.1, RFC 6891 §6.1.2). -/
+def specErrorResponse (req : Bytes) (serverSize : Nat) (sc : Scan) : List UInt8 :=
+  let x := req.getD 2 0
+  let h2 : UInt8 := 128 ||| (x &&& 120) ||| (if x.toNat / 8 % 16 = 0 then x &&& 1 else 0)
+  let rc := verdictRcode sc.verdict
+  let q : List UInt8 := match sc.question with
+    | none => []
+    | some q => q.qname ++ u16be q.qtype ++ u16be q.qclass
+  let opt : List UInt8 :=
+    if sc.edns then [0, 0, 41] ++ u16be serverSize ++ [UInt8.ofNat rc.2, 0, 0, 0, 0, 0] else []
+  [req.getD 0 0, req.getD 1 0, h2, UInt8.ofNat rc.1, 0, (if sc.question.isSome then 1 else 0), 0, 0, 0, 0, 0,
+   (if sc.edns then 1 else 0)] ++ q ++ opt
 
 /-! ### audits of a response -/
 
@@ -238,6 +270,36 @@ inductive Resp
 
 def noData (d : DMsg) : Bool :=
   d.an.isEmpty && d.ns.isEmpty && d.ar.all (fun r => r.ty = 41 || r.ty = 250)
+
+/-- the first OPT record of the additional section (the one the scan reaches first), if the records
+    before it can be delimited: position of the record -/
+def firstOpt (msg : Bytes) : Nat → Nat → Option Delim
+  | 0, _ => none
+  | n+1, pos =>
+    match specDelimit msg pos with
+    | none => none
+    | some d => if d.ty = 41 then some d else firstOpt msg n d.next
+
+/-- "an OPT whose owner is not the root": the OPT the scan reaches decodes, has well-formed options,
+    and its owner is not the root (C09 asks for FORMERR here) -/
+def optOwnerNotRoot (msg : Bytes) : Bool :=
+  if msg.size < 12 then false else
+  let qd := hdr msg 4
+  let p1 : Option Nat := if qd = 0 then some 12 else match specQuestionAt msg 12 with
+    | some (_, _, _, nx) => some nx
+    | none => none
+  match p1 with
+  | none => false
+  | some p1 =>
+    match scanPlain msg (hdr msg 6 + hdr msg 8) p1 with
+    | none => false
+    | some p2 =>
+      match firstOpt msg (hdr msg 10) p2 with
+      | none => false
+      | some d =>
+        match specDecodeName msg d.pos with
+        | some (owner, _, _) => owner ≠ [0] && optRdataOk msg (d.rdlen + 1) (d.ownerEnd + 10) d.next
+        | none => false
 
 /-- audit one response; returns tags `Cxx:reason` of the properties it violates -/
 def auditOne (cat : List ZoneCfg) (serverSize : Nat) (req : Bytes) (udp : Bool) (r : Resp) : List String :=
@@ -301,6 +363,7 @@ def auditOne (cat : List ZoneCfg) (serverSize : Nat) (req : Bytes) (udp : Bool) 
       let cv := match sc.verdict with
         | .formErr =>
           (if extRcode ≠ 1 then [s!"C08:rcode-{extRcode}-{tr}"] else []) ++
+          (if extRcode ≠ 1 ∧ sc.edns ∧ optOwnerNotRoot req then [s!"C09:owner-rcode-{extRcode}-{tr}"] else []) ++
           (if !noData d then [s!"C08:data-{tr}"] else [])
         | .badVers =>
           (if extRcode ≠ 16 then [s!"C09:badvers-rcode-{extRcode}-{tr}"] else []) ++
